@@ -388,7 +388,12 @@ func (c *FnCtx) loadFieldQuiet(st *State, ref, owner, path string, ft types.Type
 		return &Val{S: SNone, Typ: ft, Box: ref, T: owner + "." + path}
 	}
 	h := c.heapGet(st, owner+"."+path, s)
-	return &Val{T: tApp("select", h, ref), S: s, Typ: ft}
+	v := &Val{T: tApp("select", h, ref), S: s, Typ: ft}
+	if c.V.specs.FieldInv[owner+"."+path] == "nonnil" && s == SInt && !strings.Contains(ref, "!q") {
+		// constructor-established, never reassigned: holds in every heap for every object that exists
+		c.addFact(tOr(tEq(ref, "0"), tNot(tEq(v.T, "0"))))
+	}
+	return v
 }
 
 func (c *FnCtx) specCall(env *SpecEnv, x *ast.CallExpr) *Val {
